@@ -30,6 +30,10 @@ type HistOp struct {
 	Chunk        int         `json:"chunk,omitempty"`
 	ReadFailAt   int         `json:"read_fail_at,omitempty"`
 	StderrFailAt int         `json:"stderr_fail_at,omitempty"` // the n-th write to Runtime.Stderr fails
+	// CancelAfter: the host cancels the operation's context once the entry
+	// point has returned (the usual `defer cancel()`); nothing evaluated
+	// later may consult it
+	CancelAfter bool `json:"cancel_after,omitempty"`
 }
 
 func (o HistOp) faultFree() bool {
@@ -63,7 +67,7 @@ const histSafetyCap = 300000
 var histPkgs = []string{"user", "pa", "pb"}
 
 const histSetup = `(in-package 'pa) (in-package 'pb) (in-package 'user)
-(set 'm0 (sorted-map)) (set 'vec0 (vector))`
+(set 'm0 (sorted-map)) (set 'vec0 (vector)) (set 'b0 (to-bytes "ab"))`
 
 // histGen carries generator-side bookkeeping across the operations of one
 // history.
@@ -84,7 +88,7 @@ func (h *histGen) stateOp(g *PGen) *Node {
 		pkg = "user"
 	}
 	var op string
-	switch g.r.Pick([]int{5, 2, 3, 2, 1, 2, 1}) {
+	switch g.r.Pick([]int{5, 2, 3, 2, 1, 2, 1, 1, 1, 1}) {
 	case 0:
 		op = fmt.Sprintf("(set 'g%d %d)", g.r.Intn(4), v)
 	case 1:
@@ -97,6 +101,14 @@ func (h *histGen) stateOp(g *PGen) *Node {
 			// fault point in a non-final body form
 			body = fmt.Sprintf("(sim:fp %d 0) (sim:probe 'in-%s %d)", 500+h.fpN, name, v)
 		}
+		switch g.r.Intn(5) {
+		case 0:
+			body = fmt.Sprintf("(if true (progn %s) ())", body)
+		case 1:
+			body = fmt.Sprintf("(let ((zq 1)) %s)", body)
+		case 2:
+			body = fmt.Sprintf("(cond ((= 1 1) %s) (:else ()))", body)
+		}
 		op = fmt.Sprintf("(defun %s () %s)", name, body)
 		h.funs = append(h.funs, pkg+":"+name)
 	case 3:
@@ -105,6 +117,19 @@ func (h *histGen) stateOp(g *PGen) *Node {
 		op = fmt.Sprintf("(dissoc! user:m0 'k%d)", g.r.Intn(4))
 	case 5:
 		op = fmt.Sprintf("(append! user:vec0 %d)", v)
+	case 7:
+		op = fmt.Sprintf("(append! user:b0 %d)", v%200)
+	case 8:
+		// refused as a whole: an element in the middle or at the end is not a byte
+		op = PickStr(g.r, []string{
+			fmt.Sprintf("(ignore-errors (append! user:b0 %d %d 300))", v%200, (v+1)%200),
+			fmt.Sprintf("(ignore-errors (append-bytes! user:b0 (list %d 999 %d)))", v%200, (v+1)%200),
+			fmt.Sprintf("(ignore-errors (append-bytes! user:b0 (vector %d %d -1)))", v%200, (v+1)%200),
+			fmt.Sprintf("(ignore-errors (append! user:vec0 %d (error 'stop 1)))", v),
+			fmt.Sprintf("(ignore-errors (assoc! user:m0 'k%d (error 'stop 1)))", g.r.Intn(4)),
+		})
+	case 9:
+		op = fmt.Sprintf("(append-bytes! user:b0 \"%c%c\")", 'a'+v%26, 'a'+(v+3)%26)
 	default:
 		op = fmt.Sprintf("(export 'g%d)", g.r.Intn(4))
 	}
@@ -255,6 +280,9 @@ func (historyEngine) Gen(r *Rand, tier string) any {
 		if len(op.Forms) > 0 && r.Chance(1, 10) && strings.Contains(Src(op.Forms), "debug-") {
 			op.StderrFailAt = r.Range(1, 3)
 		}
+		if strings.HasSuffix(op.Entry, "Context") && r.Chance(2, 3) {
+			op.CancelAfter = true
+		}
 		if op.Entry == "Load" || op.Entry == "LoadContext" {
 			op.Chunk = r.Pick([]int{1, 1, 1}) * r.Range(1, 9)
 			if r.Chance(1, 6) {
@@ -380,7 +408,7 @@ func inspectionSrc() string {
 			fmt.Fprintf(&b, "(sim:probe 'insp \"%s:f%d\" %s (%s:f%d)))\n", p, i, h, p, i)
 		}
 	}
-	b.WriteString("(sim:probe 'insp \"m0\" user:m0 (length user:m0) (keys user:m0))\n(sim:probe 'insp \"vec0\" user:vec0 (length user:vec0) (ignore-errors (nth user:vec0 (- (length user:vec0) 1))))\n(sim:probe 'insp \"pkg\" (sim:cur-pkg))\n")
+	b.WriteString("(sim:probe 'insp \"m0\" user:m0 (length user:m0) (keys user:m0))\n(sim:probe 'insp \"vec0\" user:vec0 (length user:vec0) (ignore-errors (nth user:vec0 (- (length user:vec0) 1))))\n(sim:probe 'insp \"b0\" user:b0 (length user:b0))\n(sim:probe 'insp \"pkg\" (sim:cur-pkg))\n")
 	return b.String()
 }
 
@@ -596,6 +624,9 @@ func (historyEngine) Run(ci any, st *Stats) *Violation {
 		if ctx.Cancelled() {
 			st.Inc("fault_cancel_fired")
 			fired = true
+		} else if op.CancelAfter {
+			ctx.CancelNow()
+			st.Inc("fault_context_cancelled_after_return")
 		}
 		panicFired := false
 		for _, f := range R.Fired {
